@@ -46,8 +46,7 @@ def plainAt (dag : Dag) (n : Nat) : Bool :=
 /-- structure of a fused node `f` with partition count `np`, nested groups at any position:
     * `f` is a blockwise node with the `Fused` broadcast rule and at least one member;
     * every member is a blockwise node stored under its own, smaller, name (a `Fused` is created after
-      its members) and has the partition count `np` or a single partition (broadcast);
-      a nested group is, recursively, well formed for its own partition count;
+      its members); a nested group has the partition count `np` and is, recursively, well formed;
     * the first member has the partition count `np`;
     * no dependency of `f` is `f` itself or a name inside `f`. -/
 def levelOK (dag : Dag) (np : Nat) : Nat → Node → Bool
@@ -58,8 +57,8 @@ def levelOK (dag : Dag) (np : Nat) : Nat → Node → Bool
       decide (m < f.name) &&
       (match getNode dag m with
        | some mn =>
-         mn.blockwise && mn.name == m && (mn.npart == np || mn.npart == 1) &&
-           (if mn.members ≠ [] then levelOK dag mn.npart fuel mn else true)
+         mn.blockwise && mn.name == m &&
+           (if mn.members ≠ [] then levelOK dag np fuel mn else true)
        | none => false)) &&
     (match getNode dag (f.members.headD 0) with
      | some rn => rn.npart == np
